@@ -97,6 +97,29 @@ def f1_annotation_scope(ctx: Ctx):
         ctx.check(reann, BACK, c, q, 'fpc.Ctx(props, <body of the with-block>)',
                   f'the body is compiled with the continuation `{k}` (everything after the with-block) nested inside it, and the whole is wrapped in the '
                   f'`!` annotation: statements after an inner `with` are evaluated under the inner precision and rounding mode')
+    # the continuation is re-annotated with the properties of the INNERMOST enclosing context: the top of a stack that
+    # is pushed for exactly the extent of the body
+    wraps = [s for s in ast.walk(fn) if isinstance(s, ast.Assign) and dotted(s.targets[0]) == k and isinstance(s.value, ast.Call) and call_name(s.value) == 'fpc.Ctx']
+    for w in wraps:
+        subs = [n for n in ast.walk(w.value.args[0]) if isinstance(n, ast.Subscript) and dotted(n.value) == 'self._enclosing_props']
+        top = len(subs) == 1 and isinstance(subs[0].slice, ast.UnaryOp) and isinstance(subs[0].slice.op, ast.USub) \
+            and isinstance(subs[0].slice.operand, ast.Constant) and subs[0].slice.operand.value == 1
+        ctx.check(top, BACK, w, q, 'the statements after a with-block are annotated with the innermost enclosing context (top of the stack)',
+                  f'annotated with `{norm(w.value.args[0])}`: inside a nested `with`, what follows the inner block would run under the function\'s own context instead of the outer block\'s')
+    if wraps:
+        tries = [s for s in walk_no_nested(fn) if isinstance(s, ast.Try)]
+        good = False
+        for t in tries:
+            body_visits = any(call_name(c) == 'self._visit_block' and norm(c.args[0]) == 'stmt.body' for s in t.body for c in calls_in(s))
+            pops = any(norm(s) == 'self._enclosing_props.pop()' for s in t.finalbody)
+            idx = fn.body.index(t) if t in fn.body else -1
+            pushed = idx > 0 and norm(fn.body[idx - 1]) == 'self._enclosing_props.append(props)'
+            good = good or (body_visits and pops and pushed)
+        ctx.check(good, BACK, fn, q, 'the block\'s own properties are pushed for exactly the extent of its body (popped in a `finally`)',
+                  'push / pop of the enclosing-properties stack is unbalanced: a later continuation would be annotated with a stale context')
+        init = ctx.fn(BACK, '_FPCoreCompileInstance.__init__')
+        ok = any(isinstance(s, (ast.Assign, ast.AnnAssign)) and 'self._enclosing_props' in norm(s) and '[self._function_props(func)]' in norm(s) for s in ast.walk(init))
+        ctx.check(ok, BACK, init, '_FPCoreCompileInstance.__init__', 'the stack starts with the function\'s own context', 'changed')
 
 
 # ----------------------------------------------------------------------
@@ -345,6 +368,9 @@ RULES = [
 from ..selftest import Mutant  # noqa: E402
 
 MUTANTS = [
+    Mutant('continuation-annotated-with-function-context', BACK, "            ctx = fpc.Ctx(dict(self._enclosing_props[-1]), ctx)", "            ctx = fpc.Ctx(dict(self._enclosing_props[0]), ctx)", 'C12.F1',
+           'seeded change C12a: inside a nested `with`, what follows the inner block runs under the function\'s context'),
+    Mutant('enclosing-props-never-popped', BACK, "        finally:\n            self._enclosing_props.pop()\n        return fpc.Ctx(props, body)", "        finally:\n            pass\n        return fpc.Ctx(props, body)", 'C12.F1'),
     Mutant('continuation-inside-annotation', BACK, "        if ctx is not None:\n            ctx = fpc.Ctx(dict(self._enclosing_props[-1]), ctx)\n", "", 'C12.F1',
            'the defect repaired by the fix: commit: statements after a with-block evaluated under its precision'),
     Mutant('continuation-wrapped-only-sometimes', BACK, "        if ctx is not None:\n            ctx = fpc.Ctx(dict(self._enclosing_props[-1]), ctx)\n",
